@@ -129,7 +129,12 @@ def build_session(rng, tmp, nops, metrics):
                     except Exception:
                         pass
                 s.fit(o, 1, s.pool[Xi], s.pool[iY], extra, data_key=[s.I("arr", s.pool[Xi]), s.I("arr", s.pool[iY])] + key[1])
+                if twin == 1 and group % 2 == 0:
+                    # one twin has a different predict history (far outliers, copies of training samples) before the common batch
+                    s.predict(o, 1, s.pool[iXv] * 40.0 + 7.0, name="predict-outliers")
+                    s.predict(o, 1, s.pool[Xi][:3].copy(), name="predict-copies")
                 s.predict(o, 1, s.pool[iXv])
+                s.observe(o, 1, "predstate")      # equal data, equal fitted state - whatever was predicted in between
         else:
             # (learn and prune are deliberately not driven here: learn exchanges samples between the caller's training and
             # validation arrays in place BY DESIGN - that exchange is what C17 specifies - so C07's "fitting or predicting
@@ -163,7 +168,7 @@ def sweep_session(rng, tmp, metrics):
 
 
 def clause_pid(clause, e):
-    return "C07" if clause[0] in ("caller_array_modified_by", "distance_value_depends_on_history", "refit_on_equal_data_gives_different_forest", "twin_full_state_differs", "prediction_not_a_function_of_the_sample") else None
+    return "C07" if clause[0] in ("caller_array_modified_by", "distance_value_depends_on_history", "refit_on_equal_data_gives_different_forest", "twin_full_state_differs", "twin_state_differs", "prediction_not_a_function_of_the_sample") else None
 
 
 def run(tier, seed):
